@@ -33,7 +33,13 @@ _NESTED: dict[int, list[ast.stmt]] = {}
 
 
 def _terminal(block: list[ast.stmt]) -> bool:
-    return bool(block) and isinstance(block[-1], (ast.Return, ast.Raise, ast.Continue, ast.Break))
+    if not block:
+        return False
+    last = block[-1]
+    if isinstance(last, (ast.Return, ast.Raise, ast.Continue, ast.Break)):
+        return True
+    # an if / elif / else all of whose branches leave
+    return isinstance(last, ast.If) and bool(last.orelse) and _terminal(last.body) and _terminal(last.orelse)
 
 
 def _renest(block: list[ast.stmt]) -> list[ast.stmt]:
@@ -572,9 +578,18 @@ def expand(prog: 'object') -> list[str]:
         mapping: dict[str, ast.expr] = {}
         rename: dict[str, str] = {}
         pre: list[ast.stmt] = []
+        tail_ok = _tail_returns_only(body)
+        tnames_ = set()
+        if target is not None:
+            tnames_ = {target.id} if isinstance(target, ast.Name) else ({t_.id for t_ in target.elts if isinstance(t_, ast.Name)} if isinstance(target, ast.Tuple) else set())
         for p, arg in b.items():
             if p in ('self', 'cls') or (_simple(arg) and p not in assigned):
                 mapping[p] = arg
+            elif p in assigned and isinstance(arg, ast.Name) and arg.id in tnames_ and tail_ok \
+                    and not any(isinstance(x_, ast.Name) and x_.id == arg.id for q_, a2 in b.items() if q_ != p for x_ in ast.walk(a2)):
+                # the helper updates its parameter, and the caller passes the very variable that receives the result
+                # (`x, y = helper(x, …)`): the parameter is that variable (results are stored at the returns only)
+                rename[p] = arg.id
             else:
                 nm = p if p not in caller_names else f'{p}__{h.name}{counter}'
                 rename[p] = nm
